@@ -13,7 +13,7 @@ SPECS = {
     "C13": dict(module="Backoff", cfg="MC_Backoff.cfg", sub="backoff", trace=("Trace_Backoff", "Trace_Backoff.cfg"),
                 level="model_checking",
                 quick=dict(cap=None, extra=["--large", "340"]),
-                thorough=dict(cap=None, extra=["--large", "6000"], cfg_subst={"Steps": "{0, 1, 2, 3, 7, 1000}", "Factors": "{0, 1, 2, 3, 10}",
+                thorough=dict(cap=None, extra=["--large", "6000"], cfg_subst={"Steps": "{0, 1, 2, 3, 5, 7, 11}", "Factors": "{0, 1, 2, 3, 7, 10}",
                                                                                "Attempts": "{0, 1, 2, 3, 6, 9}", "Caps": "{0, 1, 5, 20, 100000}"}),
                 assume=["small domain: nanosecond values within TLC's 32-bit integers, compared with the module's own Delay",
                         "large domain: recomputed exactly in nanoseconds with BigNat.tla (base-10^4 limbs)"]),
